@@ -26,6 +26,7 @@ Routines and classes for creating priors and timeslices for use in tsdate
 
 import logging
 import os
+import tempfile
 from collections import defaultdict, namedtuple
 
 import numpy as np
@@ -147,6 +148,11 @@ class ConditionalCoalescentTimes:
             if os.path.isfile(filename):
                 # Have already calculated and stored this
                 self.approx_priors = np.genfromtxt(filename)
+                if self.approx_priors.shape != (precalc_approximation_n, 2):
+                    # e.g. a file left incomplete by an older version: recompute
+                    self.approx_priors = self.precalculate_priors_for_approximation(
+                        precalc_approximation_n,
+                    )
             else:
                 # Calc and store
                 self.approx_priors = self.precalculate_priors_for_approximation(
@@ -264,7 +270,20 @@ class ConditionalCoalescentTimes:
         all_tips = np.arange(2, n + 1)
         prior_lookup_table[1:, 0] = all_tips / n
         prior_lookup_table[1:, 1] = conditional_coalescent_variance(n + 1)[all_tips]
-        np.savetxt(self.get_precalc_cache(n), prior_lookup_table)
+        # Write to a temporary file and atomically rename it, so that an interrupted
+        # or concurrent write never leaves a partial table under the cache filename
+        filename = self.get_precalc_cache(n)
+        fd, tmp_filename = tempfile.mkstemp(dir=os.path.dirname(filename), suffix=".tmp")
+        try:
+            with os.fdopen(fd, "w") as f:
+                np.savetxt(f, prior_lookup_table)
+                f.flush()
+                os.fsync(f.fileno())
+            os.replace(tmp_filename, filename)
+        except BaseException:
+            if os.path.isfile(tmp_filename):
+                os.remove(tmp_filename)
+            raise
         return prior_lookup_table
 
     def clear_precalculated_priors(self):
